@@ -2027,7 +2027,7 @@ C17_PROGRAMS = [
     ("filter_if", "func G@(mask, n int) (_ Iter[int]) {\n\tfor i := 0; rt.Probe(i < n); i++ {\n\t\tif (mask>>uint(i))&1 == 0 {\n\t\t\tYield(i)\n\t\t}\n\t}\n\treturn\n}\n"),
     ("while_continue", "func G@(mask, n int) (_ Iter[int]) {\n\ti := 0\n\tfor rt.Probe(i < n) {\n\t\ti++\n\t\tif (mask>>uint(i))&1 == 1 {\n\t\t\tcontinue\n\t\t}\n\t\tYield(i)\n\t}\n\treturn\n}\n"),
     ("loop_break", "func G@(mask, n int) (_ Iter[int]) {\n\ti := 0\n\tfor {\n\t\trt.Probe(true)\n\t\ti++\n\t\tif i > n {\n\t\t\tbreak\n\t\t}\n\t\tif (mask>>uint(i))&1 == 1 {\n\t\t\tcontinue\n\t\t}\n\t\tYield(i)\n\t}\n\treturn\n}\n"),
-    ("range_slice", "func G@(mask, n int) (_ Iter[int]) {\n\txs := []int{0, 1, 2, 3, 4, 5, 6, 7}\n\tfor i, x := range xs[:n] {\n\t\trt.Probe(true)\n\t\tif (mask>>uint(i))&1 == 1 {\n\t\t\tcontinue\n\t\t}\n\t\tYield(x)\n\t}\n\treturn\n}\n"),
+    ("range_slice", "func G@(mask, n int) (_ Iter[int]) {\n\txs := []int{0, 1, 2, 3, 4, 5, 6, 7, 8, 9, 10, 11, 12, 13, 14, 15}\n\tfor i, x := range xs[:n] {\n\t\trt.Probe(true)\n\t\tif (mask>>uint(i))&1 == 1 {\n\t\t\tcontinue\n\t\t}\n\t\tYield(x)\n\t}\n\treturn\n}\n"),
     ("switch_in_loop", "func G@(mask, n int) (_ Iter[int]) {\n\tfor i := 0; rt.Probe(i < n); i++ {\n\t\tswitch (mask >> uint(i)) & 1 {\n\t\tcase 0:\n\t\t\tYield(i)\n\t\tdefault:\n\t\t}\n\t\trt.Emit(rt.EFF, i)\n\t}\n\treturn\n}\n"),
     ("yield_post", "func G@(mask, n int) (_ Iter[int]) {\n\tfor i := 0; rt.Probe(i < n); i++ {\n\t\tif (mask>>uint(i))&1 == 0 {\n\t\t\tYield(i)\n\t\t}\n\t\trt.Emit(rt.EFF, i)\n\t}\n\treturn\n}\n"),
     ("delegating_filter", "func H@(mask, n int) (_ Iter[int]) {\n\tfor i := 0; rt.Probe(i < n); i++ {\n\t\tif (mask>>uint(i))&1 == 1 {\n\t\t\tcontinue\n\t\t}\n\t\tYield(i)\n\t}\n\treturn\n}\n\nfunc G@(mask, n int) (_ Iter[int]) {\n\tYieldFrom(H@(mask, n))\n\treturn\n}\n"),
